@@ -125,7 +125,7 @@ async def partial(
     if step_config.context_parameter:
         # Convert to internal face for step execution
         kwargs[step_config.context_parameter] = context
-    with workflow._resource_manager.resolution_scope():
+    async with workflow._resource_manager.exclusive_resolution():
         for resource_def in step_config.resources:
             descriptor = resource_def.resource
             descriptor.set_type_annotation(resource_def.type_annotation)
